@@ -9,8 +9,9 @@
 (d) the conversions outside the helpers are the *same expressions* in the default and
     the fastmath-off build (kernel identity with helpers as applications), and the
     budgets that involve no approximation (C01, C02, C08) hold in the FMA build too.
-NOT decided: numeric agreement between the fastmath and the libm build (approximation
-accuracy, DESIGN.md section 5)."""
+(e) the transfer curves stay within their budgets in the FMA build (K2) and within 5e-5 in the
+    libm build (K3) - the C03 analysis with that build's kernels and helper bodies -, and the two
+    builds agree within the fastmath budget: |fast - libm| <= |fast - ideal| + |libm - ideal|."""
 from __future__ import annotations
 import json, os, subprocess
 from engine.check import Check
@@ -113,10 +114,47 @@ def run(tier):
               'all 28 curve kernels are the same expressions in both builds (only the helper bodies differ)' if not diff else f"kernels differ between the builds for {diff[:4]}")
     except Unsupported as ex:
         ck.ob('C20/kernels-fastmath-vs-libm', 'UNDECIDED', f"analysis lost: {ex}")
+    # (e) the curve budgets in the other builds, and agreement of the fastmath and the libm build
+    from . import c03
+    from engine import realerr
+    try:
+        b2 = c03.analyse(ck, tier, 'K2', prefix='C20/curves', witness=False, clauses=False)                     # fastmath + FMA: same budgets as C03
+        # known not to close on the reference tree (reasons in DESIGN.md 8.8): recorded as not decided, never as a violation
+        NC3 = {'PerceptualQuantizer/to_linear': 'near x = 1 the denominator C2 - C3*x^(1/m2) = 0.164 cancels: one ulp of libm powf (A-libm allows a full ulp) becomes 4.6e-5 after ^(1/m1)'}
+        b3 = c03.analyse(ck, tier, 'K3', prefix='C20/curves', budget_fn=lambda t, d: 5e-5, witness=False, clauses=False, not_closing=NC3)   # libm build: 5e-5
+        # agreement: both builds evaluate the same ideal kernel (d); |fast - libm| <= |fast - ideal| + |libm - ideal|
+        H1 = realerr.Helpers(Ctx('K1', 'yuvxyb_math')); H3 = realerr.Helpers(Ctx('K3', 'yuvxyb_math'))
+        c1, c3 = Ctx('K1'), Ctx('K3')
+        seen = {}
+        for t in STD_CURVES:
+            for d in ('to_linear', 'to_gamma'):
+                if t == 'Linear': continue
+                e, x = curve_kernel(c1, t, d)
+                e3_, x3 = curve_kernel(c3, t, d)
+                k = canon(e)
+                bud = c03.budget(t, d)
+                if k not in seen:
+                    try:
+                        a = realerr.sup_error(e, x, H1, 0.0, 1.0, 0.56 * bud, max_boxes=3000 if tier == 'quick' else 12000)[0]
+                        b_ = realerr.sup_error(e3_, x3, H3, 0.0, 1.0, 0.03 * bud, max_boxes=3000 if tier == 'quick' else 12000)[0]
+                        seen[k] = (a, b_)
+                    except Unsupported:
+                        seen[k] = (float('inf'), float('inf'))
+                e1, e3 = seen[k]
+                ok = e1 + e3 < bud
+                ck.count('agreement')
+                if ok:
+                    ck.ob(f"C20/agreement/{t}/{d}", 'PROVED', f"|fastmath build - libm build| <= {e1:.3g} + {e3:.3g} = {e1 + e3:.4g} < {bud} on [0,1] (same ideal kernel in both builds)")
+                elif f"{t}/{d}" in NC3:
+                    ck.note(f"agreement_not_decided/{t}/{d}", f"bound {e1:.3g} + {e3:.3g} vs {bud}: {NC3[f'{t}/{d}']}")
+                else:
+                    ck.ob(f"C20/agreement/{t}/{d}", 'UNDECIDED', f"bound {e1:.3g} + {e3:.3g} not below {bud}")
+    except Unsupported as ex:
+        ck.ob('C20/curves', 'UNDECIDED', f"analysis lost: {ex}")
     # budgets without approximation in the FMA build (a reduced sweep; the full one is the thorough tier of C01/C02/C08)
     from . import c01, c02, c08
     for mod in (c01, c02, c08):
         mod.analyse(ck, 'quick' if tier == 'quick' else 'thorough', ('K2',))
-    ck.floor('helpers', 6); ck.floor('fma_siblings', 3); ck.floor('kernels_compared', 28)
-    ck.note('not_decided', ['numeric agreement of the fastmath and the libm build within the fastmath budget', 'curves within 5e-5 with libm: decided at formula level only (C03), plus A-libm'])
+    ck.floor('helpers', 6); ck.floor('fma_siblings', 3); ck.floor('kernels_compared', 28); ck.floor('agreement', 26)
+    ck.note('not_decided', ['agreement of the two builds for the XYB / HSL conversions (cbrtf within 1 ulp of libm cbrt: C18; the conversions around it are the same expressions)', 'helpers agree with libm to 2 ulp in the libm build: they ARE the libm calls (cfg clause), A-libm'])
     return ck.finish()
